@@ -147,6 +147,15 @@ func (c *Ctx) relation(caller *core.FuncInfo, callerM measure, actual ast.Expr) 
 	if po == nil {
 		return "bad"
 	}
+	// a component obtained through an accessor kept in a table (`kw.get(schema)`, every accessor of the table
+	// returning a member of its argument): a strict sub-component of the argument
+	if base, extra := c.throughAccessors(caller, actual); extra > 0 {
+		if bp := c.P.PathOf(caller, base, true); bp != nil && bp.Root == po {
+			if callerM.field == "" || len(bp.Steps) >= 1 && bp.Steps[0].Name == callerM.field {
+				return "strict"
+			}
+		}
+	}
 	// synthesized selector expressions have no type info: resolve manually
 	var p *core.Path
 	if sel, ok := actual.(*ast.SelectorExpr); ok && c.info(caller).Selections[sel] == nil && c.info(caller).Uses[sel.Sel] == nil {
@@ -1003,6 +1012,33 @@ func (c *Ctx) importProgress() {
 					continue
 				}
 				n++
+				// the caller keeps the step's first (bool) answer and lowers a flag only under its negation:
+				// done, err := step(…); if !done { complete = false }
+				doneGuardsFlag := false
+				if gsig.Results().Len() == 2 && core.IsBool(gsig.Results().At(0).Type()) {
+					if as, isAs := c.parents(fi)[call].(*ast.AssignStmt); isAs && len(as.Lhs) == 2 {
+						if do := core.ObjOf(c.info(fi), as.Lhs[0]); do != nil {
+							ast.Inspect(fi.Decl.Body, func(m ast.Node) bool {
+								ifs, isIf := m.(*ast.IfStmt)
+								if !isIf {
+									return true
+								}
+								u, isNot := core.Unparen(ifs.Cond).(*ast.UnaryExpr)
+								if !isNot || u.Op != token.NOT || core.ObjOf(c.info(fi), u.X) != do {
+									return true
+								}
+								for _, st := range ifs.Body.List {
+									if a2, ok := st.(*ast.AssignStmt); ok && len(a2.Rhs) == 1 {
+										if tv, isC := c.info(fi).Types[a2.Rhs[0]]; isC && tv.Value != nil && tv.Value.String() == "false" {
+											doneGuardsFlag = true
+										}
+									}
+								}
+								return true
+							})
+						}
+					}
+				}
 				var collectBad func(g *core.FuncInfo, depth int) []string
 				collectBad = func(g *core.FuncInfo, depth int) []string {
 					ginfo := c.info(g)
@@ -1032,8 +1068,14 @@ func (c *Ctx) importProgress() {
 							}
 							return true // an error is returned (or a variable that may hold one: treated as error exit)
 						}
-						// a rewrite statement earlier in an enclosing statement list
+						// `return true, nil` of a step that answers (done, error): "nothing to import here" — the pass
+						// stays complete as far as this entry goes (the caller lowers its flag under !done only)
 						okRet := false
+						if len(ret.Results) == 2 && depth == 0 && doneGuardsFlag {
+							if tv, isC := ginfo.Types[ret.Results[0]]; isC && tv.Value != nil && tv.Value.String() == "true" {
+								okRet = true
+							}
+						}
 						var node ast.Node = ret
 						for node != nil && !okRet {
 							parent := pm[node]
@@ -1081,4 +1123,199 @@ func (c *Ctx) importProgress() {
 	if n < 1 {
 		c.S.Undecided("C09", "TERM-IMPORT-PROGRESS", "floor", "-", "no step of a fixpoint pass taking the holders of a remote $ref found (two on the pinned tree)")
 	}
+}
+
+// throughAccessors unwraps &x, single-definition locals, element selections and calls of table accessors; it returns
+// the expression the component was taken from and how many component steps were crossed (0 when no accessor call
+// was crossed: the ordinary path resolution applies).
+func (c *Ctx) throughAccessors(fi *core.FuncInfo, e ast.Expr) (ast.Expr, int) {
+	info := c.info(fi)
+	steps, crossed := 0, false
+	for i := 0; i < 8; i++ {
+		e = core.Unparen(e)
+		switch x := e.(type) {
+		case *ast.UnaryExpr:
+			if x.Op == token.AND {
+				e = x.X
+				continue
+			}
+		case *ast.Ident:
+			if defs := c.P.Locals(fi).Defs[core.ObjOf(info, x)]; len(defs) == 1 && defs[0].Kind == core.DefAssign {
+				e = defs[0].Expr
+				continue
+			}
+		case *ast.IndexExpr:
+			e = x.X
+			steps++
+			continue
+		case *ast.CallExpr:
+			if len(x.Args) == 1 && c.P.StaticCallee(fi, x) == nil && c.isComponentAccessor(fi, x) {
+				e = x.Args[0]
+				steps++
+				crossed = true
+				continue
+			}
+		}
+		break
+	}
+	if !crossed {
+		return nil, 0
+	}
+	return e, steps
+}
+
+// isComponentAccessor: the call goes through member f of an element of a table (a composite literal held by a
+// package-level variable that is never assigned, or by a local), and every function literal stored under f in that
+// table returns nil or a member (at least one field step) of its own first parameter.
+func (c *Ctx) isComponentAccessor(fi *core.FuncInfo, call *ast.CallExpr) bool {
+	info := c.info(fi)
+	sel, ok := core.Unparen(call.Fun).(*ast.SelectorExpr)
+	if !ok {
+		return false
+	}
+	// the element: the value variable of a range over the table
+	eo := core.ObjOf(info, sel.X)
+	if eo == nil {
+		return false
+	}
+	var table ast.Expr
+	for _, d := range c.P.Locals(fi).Defs[eo] {
+		if d.Kind == core.DefRangeVal {
+			table = d.Expr
+		}
+	}
+	if table == nil {
+		return false
+	}
+	var lit *ast.CompositeLit
+	switch t := core.Unparen(table).(type) {
+	case *ast.CompositeLit:
+		lit = t
+	case *ast.Ident:
+		to := core.ObjOf(info, t)
+		if pv, isVar := to.(*types.Var); isVar && pv.Pkg() != nil && pv.Parent() == pv.Pkg().Scope() {
+			for _, f := range fi.Pkg.Syntax {
+				for _, dcl := range f.Decls {
+					gd, isGen := dcl.(*ast.GenDecl)
+					if !isGen || gd.Tok != token.VAR {
+						continue
+					}
+					for _, sp := range gd.Specs {
+						vs, isVS := sp.(*ast.ValueSpec)
+						if !isVS || len(vs.Values) != len(vs.Names) {
+							continue
+						}
+						for i, nm := range vs.Names {
+							if info.Defs[nm] == to {
+								lit, _ = core.Unparen(vs.Values[i]).(*ast.CompositeLit)
+							}
+						}
+					}
+				}
+			}
+			// never assigned in the package
+			for _, g := range c.P.SortedFuncs() {
+				if g.Pkg != fi.Pkg || g.Decl.Body == nil {
+					continue
+				}
+				ast.Inspect(g.Decl.Body, func(n ast.Node) bool {
+					if as, isAs := n.(*ast.AssignStmt); isAs {
+						for _, l := range as.Lhs {
+							if id := rootIdent(l); id != nil && c.info(g).Uses[id] == to {
+								lit = nil
+							}
+						}
+					}
+					return true
+				})
+			}
+		} else if defs := c.P.Locals(fi).Defs[to]; len(defs) == 1 && defs[0].Kind == core.DefAssign {
+			lit, _ = core.Unparen(defs[0].Expr).(*ast.CompositeLit)
+		}
+	}
+	if lit == nil || len(lit.Elts) == 0 {
+		return false
+	}
+	st, isStruct := structOf(sliceElem(info.TypeOf(lit)))
+	if !isStruct {
+		return false
+	}
+	fieldIdx := -1
+	for i := 0; i < st.NumFields(); i++ {
+		if st.Field(i).Name() == sel.Sel.Name {
+			fieldIdx = i
+		}
+	}
+	n := 0
+	for _, el := range lit.Elts {
+		rec, isRec := core.Unparen(el).(*ast.CompositeLit)
+		if !isRec {
+			return false
+		}
+		var fv ast.Expr
+		for i, fe := range rec.Elts {
+			if kv, isKV := fe.(*ast.KeyValueExpr); isKV {
+				if id, isId := kv.Key.(*ast.Ident); isId && id.Name == sel.Sel.Name {
+					fv = kv.Value
+				}
+			} else if i == fieldIdx {
+				fv = fe
+			}
+		}
+		fl, isLit := core.Unparen(fv).(*ast.FuncLit)
+		if fv == nil || !isLit || fl.Type.Params == nil || len(fl.Type.Params.List) != 1 || len(fl.Type.Params.List[0].Names) != 1 {
+			return false
+		}
+		po := info.Defs[fl.Type.Params.List[0].Names[0]]
+		okAll := true
+		ast.Inspect(fl.Body, func(m ast.Node) bool {
+			ret, isRet := m.(*ast.ReturnStmt)
+			if !isRet {
+				return true
+			}
+			if len(ret.Results) != 1 {
+				okAll = false
+				return true
+			}
+			r := core.Unparen(ret.Results[0])
+			if core.IsNilExpr(info, r) {
+				return true
+			}
+			depth := 0
+			for {
+				if u, isAddr := r.(*ast.UnaryExpr); isAddr && u.Op == token.AND {
+					r = core.Unparen(u.X)
+					continue
+				}
+				s2, isSel := r.(*ast.SelectorExpr)
+				if !isSel {
+					break
+				}
+				depth++
+				r = core.Unparen(s2.X)
+			}
+			if id, isId := r.(*ast.Ident); !isId || info.Uses[id] != po || depth < 1 {
+				okAll = false
+			}
+			return true
+		})
+		if !okAll {
+			return false
+		}
+		n++
+	}
+	return n > 0
+}
+
+func sliceElem(t types.Type) types.Type {
+	if t == nil {
+		return nil
+	}
+	switch u := t.Underlying().(type) {
+	case *types.Slice:
+		return u.Elem()
+	case *types.Array:
+		return u.Elem()
+	}
+	return nil
 }
